@@ -84,6 +84,38 @@ theorem eval_logicalAnd (σ) (self : Operands) (args : List Operands) :
     rw [eval_false_of_empty_group σ _ this]; rfl
   · exact eval_foldl_and σ args self
 
+/-- Identity flags are only ever set when the operand really is the accumulated value. -/
+def Consistent : Operands → List (Bool × Operands) → Prop
+  | _, [] => True
+  | acc, b :: bs => (b.1 = true → b.2 = acc) ∧ Consistent (implAndId acc b) bs
+
+theorem eval_foldl_andId (σ) (args : List (Bool × Operands)) (self : Operands) (h : Consistent self args) :
+    eval σ (args.foldl implAndId self) = args.foldl (fun acc p => and3 acc (eval σ p.2)) (eval σ self) := by
+  induction args generalizing self with
+  | nil => rfl
+  | cons a as ih =>
+    simp only [List.foldl_cons]
+    rw [ih _ h.2]
+    congr 1
+    unfold implAndId
+    split
+    · rename_i hb
+      rw [h.1 hb]; exact (eval_and_self σ self).symm
+    · exact eval_append σ self a.2
+
+/-- n-ary `logical_and` *including* the `a is b` shortcut of `_impl_and`. -/
+theorem eval_logicalAndId (σ) (self : Operands) (args : List (Bool × Operands)) (h : Consistent self args) :
+    eval σ (logicalAndId self args) = args.foldl (fun acc p => and3 acc (eval σ p.2)) (eval σ self) := by
+  unfold logicalAndId
+  simp only []
+  split
+  · rename_i hh
+    rw [← eval_foldl_andId σ args self h]
+    have : (List.foldl implAndId self args).all (fun g => !g.isEmpty) = false := by
+      cases hx : (List.foldl implAndId self args).all (fun g => !g.isEmpty) <;> simp_all
+    rw [eval_false_of_empty_group σ _ this]; rfl
+  · exact eval_foldl_andId σ args self h
+
 /-- n-ary `logical_or`. -/
 theorem eval_logicalOr (σ) (self : Operands) (args : List Operands) :
     eval σ (logicalOr self args) = args.foldl (fun acc p => or3 acc (eval σ p)) (eval σ self) := by
@@ -117,6 +149,77 @@ theorem eval_logicalNot (σ) (p : Operands) : eval σ (logicalNot p) = not3 (eva
 
 theorem not_involutive (σ) (p : Operands) : eval σ (logicalNot (logicalNot p)) = eval σ p := by
   simp [eval_logicalNot]
+
+/-! ## rewriting visitors preserve the truth table when each replacement is equivalent to its leaf -/
+
+theorem foldl_or_zip (σ) (f : Nat → Option Operands) (hf : ∀ k r, f k = some r → eval σ r = σ k) :
+    ∀ (g : List Leaf) (acc : K3),
+      (List.zipWith (fun o r => (r : Option Operands).getD [[o]]) g (g.map (visitLeaf f))).foldl
+          (fun a p => or3 a (eval σ p)) acc = or3 acc (evalGroup σ g) := by
+  intro g
+  induction g with
+  | nil => intro acc; simp
+  | cons l ls ih =>
+    intro acc
+    simp only [List.map_cons, List.zipWith_cons_cons, List.foldl_cons, ih, evalGroup_cons]
+    have hl : eval σ ((visitLeaf f l).getD [[l]]) = evalLeaf σ l := by
+      cases l with
+      | pos k =>
+        simp only [visitLeaf]
+        cases hk : f k with
+        | none => simp [evalLeaf]
+        | some r => simp [hf k r hk, evalLeaf]
+      | neg k =>
+        simp only [visitLeaf]
+        cases hk : f k with
+        | none => simp [evalLeaf]
+        | some r => simp [eval_logicalNot, evalLeaf]
+    rw [hl, or3_assoc]
+
+theorem visitOr_preserves (σ) (f : Nat → Option Operands) (hf : ∀ k r, f k = some r → eval σ r = σ k)
+    (g : List Leaf) (r : Operands) (h : visitOr f g = some r) : eval σ r = evalGroup σ g := by
+  unfold visitOr at h
+  simp only [] at h
+  split at h
+  · cases h
+  · simp only [Option.some.injEq] at h
+    subst h
+    rw [eval_logicalOr, foldl_or_zip σ f hf]
+    simp [fromBool]
+
+theorem foldl_and_zip (σ) (f : Nat → Option Operands) (hf : ∀ k r, f k = some r → eval σ r = σ k) :
+    ∀ (p : Operands) (acc : K3),
+      (List.zipWith (fun o r => (r : Option Operands).getD [o]) p (p.map (visitOr f))).foldl
+          (fun a q => and3 a (eval σ q)) acc = and3 acc (eval σ p) := by
+  intro p
+  induction p with
+  | nil => intro acc; simp
+  | cons g gs ih =>
+    intro acc
+    simp only [List.map_cons, List.zipWith_cons_cons, List.foldl_cons, ih, eval_cons]
+    have hg : eval σ ((visitOr f g).getD [g]) = evalGroup σ g := by
+      cases hv : visitOr f g with
+      | none => simp
+      | some r => simp [visitOr_preserves σ f hf g r hv]
+    rw [hg, and3_assoc]
+
+/-- **A rewriting visitor that replaces leaves by equivalent predicates yields an equivalent
+predicate** (also for leaves under NOT, for every predicate and assignment). -/
+theorem rewrite_preserves (σ) (f : Nat → Option Operands) (hf : ∀ k r, f k = some r → eval σ r = σ k)
+    (p : Operands) : eval σ (rewrite f p) = eval σ p := by
+  unfold rewrite
+  cases hv : visitAnd f p with
+  | none => rfl
+  | some r =>
+    unfold visitAnd at hv
+    simp only [] at hv
+    split at hv
+    · cases hv
+    · simp only [Option.some.injEq] at hv
+      subst hv
+      simp only [Option.getD_some]
+      rw [eval_logicalAnd, foldl_and_zip σ f hf]
+      simp [fromBool]
 
 /-! non-vacuity -/
 example : logicalNot [[.pos 0, .pos 1], [.neg 2]] = [[.neg 0, .pos 2], [.neg 1, .pos 2]] := by decide
